@@ -149,6 +149,10 @@ func (f *Font) MakeGlyphNames() []string {
 						nn = append(nn[:0], name)
 					replLoop:
 						for _, lig := range subtable.Repl[idx] {
+							if glyphNames[lig.Out] != "" {
+								// keep existing names (including ".notdef" for glyph 0)
+								continue
+							}
 							nn = nn[:1]
 							for _, gid := range lig.In {
 								if name := glyphNames[gid]; name != "" {
